@@ -3469,6 +3469,9 @@ class PyCdlib:
         if iso_path is None and joliet_path is None and udf_path is None:
             raise pycdlibexception.PyCdlibInvalidInput("At least one of 'iso_path', 'joliet_path', or 'udf_path' must be provided")
 
+        if length < 0:
+            raise pycdlibexception.PyCdlibInvalidInput('The length of a file cannot be negative')
+
         fmode = 0
         if file_mode is not None:
             if not self.rock_ridge:
